@@ -134,7 +134,7 @@ Example ex_fault_free :
      TRender; TKeypress 97; TRender; TKeypress 98; TRender; TKeypress 100; TUnhandled (KKey 100);
      TRender; TMouse 1 3 2; TRender; TMouse 2 3 2; TUnhandled (KMouse 2 3 2); TAlarm 5; TRender; TRender; TDraw;
      TFilter [KResize]; TRender; TRender; TDraw; TPipe 1 65; TRender; TRender; TDraw] /\
-  tm (snd rs) = normal_term 42 2 1 0 /\ length (tr (snd rs)) = 69%nat.
+  tm (snd rs) = normal_term 42 2 1 0 /\ length (tr (snd rs)) = 73%nat.
 Proof. vm_compute. repeat split; reflexivity. Qed.
 
 (* the former refutation witness: an application handler (id 2) on SIGCONT survives run() *)
